@@ -62,6 +62,7 @@ RTOL_META = 5e-5
 RTOL_FFT32 = 5e-5          # complex64 pipeline (float32 grid, float32 phase/window); relative to max |F|
 RTOL_FFT64 = 1e-12         # dtype=float64, not compensated
 RTOL_FFT64_W = 2e-6        # dtype=float64, compensated (the window itself is float32 in the real code)
+RTOL_OFFSET = 1e-4       # offset deposit vs deposit of displaced particles (float32 positions), of max|grid|
 ATOL_W = 2e-6              # get_W_compensated (float32 wavenumbers), W <= 1
 RTOL_RFFTN = 1e-12         # scipy rfftn (binary64) vs defining sum (binary64), relative to max |F|
 
@@ -284,6 +285,18 @@ def stage_fieldfft(ctx, ps):
                 # exactly the two calls get_interlaced_field_fft is documented to make
                 g = quiet(ps.get_field, pos.copy(), L, n, paste, cp(w))
                 gs = quiet(ps.get_field, pos.copy(), L, n, paste, cp(w), d=0.5 * (L / n))
+                # ... and the second one must be the field of the same particles displaced by half a cell
+                # (this is what makes it roll-equivariant): deposit the displaced, re-wrapped particles with d = 0
+                p2 = pos + np.float32(0.5 * (L / n))
+                p2 = np.where(p2 >= np.float32(L), p2 - np.float32(L), p2).astype(np.float32)
+                gref = quiet(ps.get_field, p2, L, n, paste, cp(w))
+                ctx.count('B:offset-field-is-displaced-field')
+                odev = float(np.abs(gref.astype(np.float64) - gs).max() / max(np.abs(gs).max(), 1.0))
+                wo = ctx.extra.setdefault('observed_max_rel_dev', {})
+                wo['B:offset'] = max(wo.get('B:offset', 0.0), odev)
+                if not odev <= RTOL_OFFSET:
+                    ctx.disagree('get_field(d = half a cell) is not the field of the particles displaced by half a cell',
+                                 case, 'max %g' % np.abs(gref).max(), 'max diff %g' % np.abs(gref.astype(np.float64) - gs).max())
             else:
                 g = quiet(ps.get_field, pos.copy(), L, n, paste, cp(w), nthread=nthread, dtype=dt)
                 gs = np.zeros(0)
@@ -666,7 +679,7 @@ def run(ctx):
     warm_up(ps)
     stage_metamorphic(ctx, ps, ctx.pick(20, 320))
     ctx.extra['bounds'] = dict(RTOL_META=RTOL_META, RTOL_FFT32=RTOL_FFT32, RTOL_FFT64=RTOL_FFT64,
-                               RTOL_FFT64_W=RTOL_FFT64_W, ATOL_W=ATOL_W, RTOL_RFFTN=RTOL_RFFTN)
+                               RTOL_FFT64_W=RTOL_FFT64_W, ATOL_W=ATOL_W, RTOL_RFFTN=RTOL_RFFTN, RTOL_OFFSET=RTOL_OFFSET)
     ctx.extra['scope'] = ('calc_power: nmesh 4..16 (odd and even), TSC/CIC, compensated, interlaced, lin/log k bins, '
                           'k_max below/at/above Nyquist, mu bins None/1..4, pole subsets of {0,2,4}, weights, '
                           'nthread 1/2/5/16; get_field_fft: nmesh 2..6')
